@@ -79,17 +79,16 @@ def run(ctx):
     ctx.trusted = ['Lean 4.33.0 kernel', 'axioms: propext, Quot.sound, Classical.choice at most (see theorems.*.axioms)',
                    'harness/cmd/c15gen (fake extractor whose ToPURL returns the stored purl; real converter, writers, extractors) + lean/Drivers/C15.lean line protocol',
                    'Lean compiler for the driver executable',
-                   'packageurl-go String/FromString: supplied per case as a table (raw -> normal form) computed by the harness with the real library']
+                   'packageurl-go String/FromString: supplied per case as a table (raw -> normal form) computed by the harness with github.com/package-url/packageurl-go ALONE (no function of /repo/purl takes part, so a defect in /repo\'s String / FromString wrappers cannot cancel out between the expected and the observed side)']
     ctx.assumptions = ['the codec hypothesis of C15_spdx_partial / C15_cdx_partial is POINTWISE: decode (encode (toSpdx inv)) = some (toSpdx inv) for the inventory at hand (tools-golang json/yaml/tagvalue, '
                        'cyclonedx-go JSON/XML); it is ASSUMED, validated differentially only (false for tag-value always, for YAML on DEL/C1/non-characters: known findings). The older `∀ d` form '
                        '(Codec.roundtrips, C15_spdx / C15_cdx) is kept for the identity-codec examples only',
-                       'NormLaws (norm idempotent, version untouched, name equal up to case and _ . - folding) constrains the purl normalisation in the theorems; c15gen checks the real '
-                       'purl.FromString(String()) against it on every generated purl and exits 3 on a violation',
+                       'NormLaws (norm idempotent, version untouched, name equal up to case and _ . - folding) constrains the purl normalisation in the theorems; c15gen checks packageurl-go\'s print-then-parse against it on every generated purl — and, component by component, that nothing else is lost (every qualifier value, the sub-path, the namespace) — and exits 3 on a violation',
                        'the SPDX wrapper package is identified structurally (DESCRIBES target, no external reference), never by name: C15_spdx_nonwrapper_imported',
                        'ops.parse "" = none (purl.FromString("") fails) in the CycloneDX theorems',
                        'uuid.New()/time.Now() are an arbitrary Env; they do not reach the observable',
                        'strings are valid UTF-8 (generator alphabet); SPDX .rdf is not an output format of the library and is excluded (f ≠ rdf)']
-    ctx.rule = ('case = (stream, output format, inventory); every inventory is run in all five formats. streams: fixed (empty inventory, one package per purl type in lower and '
+    ctx.rule = ('case = (stream, output format, inventory); every inventory is run in all five formats. streams: matrix (every purl type x component (name, namespace, version, qualifier values, sub-path) x 15 byte classes that print/parse treat specially: blank % ? # @ / : + & = non-ASCII control %41 %2f and a mix; one inventory per (type, component)), fixed (empty inventory, one package per purl type in lower and '
                 'upper case, the 13-package probe, inventories whose names collide with the exporters\' structural vocabulary: main, main-*, Package-main, SPDXRef-DOCUMENT, NOASSERTION, NONE, SCALIBR, a_b/a-b/a+b …), valid, esc (JSON/YAML/XML/tag-value/URL-sensitive atoms), raw (newlines, tabs, <text>), ctl (control and non-characters), '
                 'malformed (purls packageurl-go rejects). inventory size 0..30, 15% purl-less, 10% with CPE metadata, 1/6 duplicates. non-trivial = at least one package with a purl; '
                 'distinct = distinct case lines. compared: sorted purl multiset (model vs implementation, and implementation vs Spec), count of purl-less returned packages')
